@@ -60,6 +60,9 @@ func captureEvents(f func()) [][]any {
 }
 
 // parseLimited runs one of the limited entry points. limit < 0 means the unlimited entry point.
+// unlimitedEntry: not a limit; selects the entry point without a limit
+const unlimitedEntry = -1 << 40
+
 func parseLimited(grammar, entry, text string, limit int) (tree string, ok bool, errText string, crash string) {
 	defer guard(fmt.Sprintf("%s parse (%s) with token limit %d", grammar, entry, limit), text)()
 	defer func() {
@@ -71,7 +74,7 @@ func parseLimited(grammar, entry, text string, limit int) (tree string, ok bool,
 	if grammar == "query" {
 		var doc *ast.QueryDocument
 		var err error
-		if limit < 0 {
+		if limit == unlimitedEntry {
 			doc, err = parser.ParseQuery(src)
 		} else {
 			doc, err = parser.ParseQueryWithTokenLimit(src, limit)
@@ -84,7 +87,7 @@ func parseLimited(grammar, entry, text string, limit int) (tree string, ok bool,
 	var doc *ast.SchemaDocument
 	var err error
 	switch {
-	case limit < 0:
+	case limit == unlimitedEntry:
 		doc, err = parser.ParseSchema(src)
 	case entry == "ParseSchemasWithLimit":
 		doc, err = parser.ParseSchemasWithLimit(limit, src)
@@ -326,7 +329,7 @@ func checkC16(c *core.Ctx) {
 	}
 	addDoc := func(grammar, text string) {
 		n, lexOK := countTokens(text)
-		tree0, ok0, _, crash := parseLimited(grammar, "", text, -1)
+		tree0, ok0, _, crash := parseLimited(grammar, "", text, unlimitedEntry)
 		if crash != "" {
 			c.Violation(fmt.Sprintf("%s document %q: %s", grammar, text, crash), map[string]any{"text": text, "crash": crash})
 			return
@@ -337,7 +340,7 @@ func checkC16(c *core.Ctx) {
 			entries = []string{"ParseSchemaWithLimit", "ParseSchemasWithLimit"}
 		}
 		for _, entry := range entries {
-			for limit := 0; limit <= n+2; limit++ {
+			for limit := -2; limit <= n+2; limit++ { // (a negative limit is a limit no input fits)
 				lc := &limitCase{Grammar: grammar, Entry: entry, Limit: limit, N: n, HasSrc: true, Src: cps(text), OK0: ok0, Tree0: tree0, Text: text, Srcs: [][]int{}}
 				var crash string
 				lc.Events = captureEvents(func() {
@@ -476,10 +479,10 @@ func checkC16(c *core.Ctx) {
 
 	// multi-megabyte families in child processes
 	sizes := []int{1 << 20}
-	limits := []int{1, 10, 1000}
+	limits := []int{-1, 1, 10, 1000}
 	if c.Thorough() {
 		sizes = []int{1 << 20, 8 << 20}
-		limits = []int{1, 10, 1000, 200000}
+		limits = []int{-1, 1, 10, 1000, 200000}
 	}
 	var blines [][]byte
 	var bevents []int64
@@ -490,7 +493,7 @@ func checkC16(c *core.Ctx) {
 				grammar, _, _ := bigInput(fam, 64)
 				entry := "ParseQueryWithTokenLimit"
 				if grammar == "schema" {
-					entry = []string{"ParseSchemaWithLimit", "ParseSchemasWithLimit"}[limit%2]
+					entry = []string{"ParseSchemaWithLimit", "ParseSchemasWithLimit"}[(limit+2)%2]
 					if limit == 10 || limit == 200000 {
 						entry = "ParseSchemasWithLimit(exact prefix)"
 					}
